@@ -9,6 +9,7 @@ import Ndt.Model.Steps
 import Ndt.Model.Guards
 import Ndt.Model.Select
 import Ndt.Model.Diff
+import Ndt.Model.Q8
 import Ndt.Model.Points
 import Ndt.Model.Jacobian
 import Ndt.Model.Hessian
@@ -107,6 +108,19 @@ def quotRat (name : String) (cs : List Rat) (x h : Rat) : Option Rat :=
   | "_forward" => some (dForward f (f x) x h)
   | "_backward" => some (dBackward f (f x) x h)
   | "_complex" => some (dComplex fc x h)
+  | _ => none
+
+/-- the complex-step quotients off the real axis, exactly, over ℚ(ζ₈): (rational part, coefficient of √2) -/
+def quotQ8 (name : String) (cs : List Rat) (x h : Rat) : Option (Rat × Rat) :=
+  let f : Q8 Rat → Q8 Rat := fun z => evalP (cs.map Q8.ofReal) z
+  let fx : Rat := evalP cs x
+  let both (q : CStep Rat (Q8 Rat) → Rat) : Option (Rat × Rat) := some (q Q8.cstepRat, q Q8.cstepSqrt2)
+  match name with
+  | "_complex" => both (fun s => qComplex s f x h)
+  | "_complex_odd" => both (fun s => qComplexOdd s f x h)
+  | "_complex_odd_higher" => both (fun s => qComplexOddHigher s f x h)
+  | "_complex_even" => both (fun s => qComplexEven s f x h)
+  | "_complex_even_higher" => both (fun s => qComplexEvenHigher s f fx x h)
   | _ => none
 
 def diffOfString : String → Option DiffName
@@ -260,6 +274,10 @@ def handle (w : List String) : String :=
   | "quot" :: name :: x :: h :: "|" :: cs =>
     match quotRat name (rats cs) (rq x) (rq h) with
     | some v => ratStr v
+    | none => "unsupported"
+  | "quotc" :: name :: x :: h :: "|" :: cs =>
+    match quotQ8 name (rats cs) (rq x) (rq h) with
+    | some (v, w) => s!"{ratStr v} {ratStr w}"
     | none => "unsupported"
   -- fdapply ρ method n order | diffs… | steps… : LogRule._apply on one column (exact)
   | "fdapply" :: rho :: m :: n :: o :: rest =>
